@@ -10,9 +10,7 @@ use text_size::{TextRange, TextSize};
 use crate::{server::ServerSnapshot, vfs::UrlExt};
 
 pub fn position(line_index: &LineIndex, position: lsp_types::Position) -> TextSize {
-    let pos_size = line_index.line_to_pos(position.line.try_into().unwrap());
-    let char_size: TextSize = position.character.into();
-    pos_size + char_size
+    line_index.utf16_pos_to_pos(position.line.try_into().unwrap(), position.character)
 }
 
 pub fn range(line_index: &LineIndex, range: lsp_types::Range) -> TextRange {
